@@ -1,7 +1,8 @@
 """MAG - sign and magnitude classes of binary64 values, for "saturates instead of turning into NaN" rules.
 
 Abstract values:  Z exact zero | ('inf', s) | NAN | ('m', s, lo, hi) a finite value of sign s and magnitude in
-[2**lo, 2**(hi+1)] | TOP anything.
+[2**lo, 2**(hi+1)] | ('x', c) exactly the binary64 number c (constants of the code and what folds from them; a value whose
+magnitude is below a quarter ulp of c is absorbed by c + v) | TOP anything.
 The transfer functions are interval arithmetic on binary exponents followed by the IEEE overflow / underflow thresholds:
 a real result of magnitude at least 2**1024 rounds to an infinity, one of at most 2**-1075 rounds to 0; an interval that
 straddles a threshold is TOP.  0*inf, 0/0, inf/inf and inf-inf are NAN.  A difference of two values of the same sign is decided
@@ -36,8 +37,25 @@ def const(c):
     s = 1 if c > 0 else -1
     if abs(c) == float('inf'):
         return ('inf', s)
-    e = math.frexp(abs(c))[1] - 1
-    return m(e, e, s)
+    return ('x', float(c))
+
+
+def cls(v):
+    """an exact number as a magnitude class"""
+    if v[0] != 'x':
+        return v
+    e = math.frexp(abs(v[1]))[1] - 1
+    return m(e, e, 1 if v[1] > 0 else -1)
+
+
+def exact(r):
+    if r != r:
+        return NAN
+    if r == 0:
+        return Z
+    if abs(r) == float('inf'):
+        return ('inf', 1 if r > 0 else -1)
+    return ('x', r)
 
 
 def binade(e, s=1):
@@ -45,10 +63,14 @@ def binade(e, s=1):
 
 
 def sign(x):
+    if x[0] == 'x':
+        return 1 if x[1] > 0 else -1
     return x[1] if x[0] in ('inf', 'm') else 0
 
 
 def neg(x):
+    if x[0] == 'x':
+        return ('x', -x[1])
     if x[0] == 'inf':
         return ('inf', -x[1])
     if x[0] == 'm':
@@ -60,7 +82,7 @@ def fabs(x):
     return neg(x) if sign(x) < 0 else x
 
 
-def mul(x, y):
+def _mul(x, y):
     if NAN in (x, y):
         return NAN
     if (x == Z and y[0] == 'inf') or (y == Z and x[0] == 'inf'):
@@ -75,7 +97,7 @@ def mul(x, y):
     return m(x[2] + y[2], x[3] + y[3] + 1, s)
 
 
-def div(x, y):
+def _div(x, y):
     if NAN in (x, y):
         return NAN
     if (x == Z and y == Z) or (x[0] == 'inf' and y[0] == 'inf'):
@@ -92,7 +114,7 @@ def div(x, y):
     return m(x[2] - y[3] - 1, x[3] - y[2], s)
 
 
-def add(x, y):
+def _add(x, y):
     if NAN in (x, y):
         return NAN
     if x[0] == 'inf' and y[0] == 'inf':
@@ -115,11 +137,92 @@ def add(x, y):
     return TOP      # cancellation: sign and magnitude open
 
 
+def _absorbs(c, v):
+    """c + v == c for every v of the class: |v| stays below a quarter of the spacing of the doubles around c"""
+    if v == Z:
+        return True
+    return v[0] == 'm' and v[3] + 1 < math.frexp(abs(c))[1] - 1 - 54
+
+
+def add(x, y):
+    if x[0] == 'x' and y[0] == 'x':
+        return exact(x[1] + y[1])
+    if x[0] == 'x' and _absorbs(x[1], y):
+        return x
+    if y[0] == 'x' and _absorbs(y[1], x):
+        return y
+    return _add(cls(x), cls(y))
+
+
+def mul(x, y):
+    if x[0] == 'x' and y[0] == 'x':
+        return exact(x[1] * y[1])
+    for a, b in ((x, y), (y, x)):
+        if a[0] == 'x' and abs(a[1]) == 1.0 and b not in (NAN, TOP):
+            return b if a[1] > 0 else neg(b)
+    return _mul(cls(x), cls(y))
+
+
+def div(x, y):
+    if x[0] == 'x' and y[0] == 'x':
+        return exact(x[1] / y[1])
+    if y[0] == 'x' and abs(y[1]) == 1.0 and x not in (NAN, TOP):
+        return x if y[1] > 0 else neg(x)
+    return _div(cls(x), cls(y))
+
+
 def sub(x, y):
     return add(x, neg(y))
 
 
+def sqrt(x):
+    if x in (NAN, TOP, Z, PINF):
+        return x
+    if sign(x) < 0:
+        return NAN
+    if x[0] == 'x':
+        return exact(math.sqrt(x[1]))       # correctly rounded in IEEE 754
+    lo, hi = x[2], x[3]
+    return m(lo // 2, -((-(hi + 1)) // 2) - 1)
+
+
+def bounds(v):
+    """closed real interval of a value, or None"""
+    if v == Z:
+        return (0.0, 0.0)
+    if v[0] == 'x':
+        return (v[1], v[1])
+    if v[0] == 'inf':
+        return (float('inf') * v[1],) * 2
+    if v[0] == 'm':
+        def p2(e):
+            try:
+                return math.ldexp(1.0, e)
+            except OverflowError:
+                return float('inf')
+        lo, hi = p2(v[2]), p2(v[3] + 1)
+        return (lo, hi) if v[1] > 0 else (-hi, -lo)
+    return None
+
+
+def fcmp(pred, x, y):
+    """-> ('b', True | False) when decided for the whole class, else TOP"""
+    if NAN in (x, y):
+        return ('b', pred.startswith('u') or pred == 'une') if pred not in ('ord', 'uno') else ('b', pred == 'uno')
+    bx, by = bounds(x), bounds(y)
+    if bx is None or by is None:
+        return TOP
+    p = pred[1:] if pred[0] in 'ou' and len(pred) == 3 else pred
+    lt = True if bx[1] < by[0] else (False if bx[0] >= by[1] else None)
+    gt = True if bx[0] > by[1] else (False if bx[1] <= by[0] else None)
+    eq = True if bx[0] == bx[1] == by[0] == by[1] else (False if (lt or gt) else None)
+    r = {'lt': lt, 'gt': gt, 'eq': eq, 'ne': (None if eq is None else not eq),
+         'le': (None if gt is None else not gt), 'ge': (None if lt is None else not lt)}.get(p)
+    return TOP if r is None else ('b', r)
+
+
 def exp(x):
+    x = cls(x)
     if x in (NAN, TOP):
         return x
     if x == Z:
@@ -141,12 +244,11 @@ def exp(x):
 
 def pow_(x, p):
     """pow(x, p) for a positive exponent class p; a negative base only with the exponent 2"""
+    x, p = cls(x), cls(p)
     if NAN in (x, p):
         return NAN
     if TOP in (x, p):
         return TOP
-    if p == ('m', 1, 1, 1):
-        pass
     if sign(p) <= 0 or p[0] != 'm':
         return TOP
     if sign(x) < 0:
@@ -191,6 +293,12 @@ def run(fn, args, lookup=None, depth=0, mem=None):
             env[i.res] = OPS[i.op](val(i.ops[0]), val(i.ops[1]))
         elif i.op == 'fneg':
             env[i.res] = neg(val(i.ops[0]))
+        elif i.op == 'fcmp':
+            env[i.res] = fcmp(str(i.x.get('pred')), val(i.ops[0]), val(i.ops[1]))
+        elif i.op == 'select':
+            c_ = env.get(i.ops[0].v, TOP) if i.ops[0].k == 'reg' else TOP
+            a_, b_ = val(i.ops[1]), val(i.ops[2])
+            env[i.res] = (a_ if c_[1] else b_) if c_[0] == 'b' else (a_ if a_ == b_ else TOP)
         elif i.op == 'ret':
             return val(i.ops[0]) if i.ops else True
         elif i.op == 'gep':
@@ -220,6 +328,8 @@ def run(fn, args, lookup=None, depth=0, mem=None):
             a = [val(o) for o in i.ops]
             if callee in ('exp', 'expf') and len(a) == 1:
                 env[i.res] = exp(a[0])
+            elif callee in ('sqrt', 'sqrtf') or callee.startswith('llvm.sqrt'):
+                env[i.res] = sqrt(a[0])
             elif callee.startswith('llvm.fabs') or callee in ('fabs', 'fabsf'):
                 env[i.res] = fabs(a[0])
             elif callee in ('pow', 'powf') and len(a) == 2:
@@ -244,6 +354,8 @@ def run(fn, args, lookup=None, depth=0, mem=None):
 
 def out_of_unit_interval(r):
     """definitely not a value of [0,1]"""
+    if r[0] == 'x':
+        return not (0 <= r[1] <= 1)
     return r == NAN or r[0] == 'inf' or (r[0] == 'm' and (r[1] < 0 or r[2] >= 1))
 
 
@@ -252,6 +364,10 @@ def show(v):
         return '%s[2^%d, 2^%d]' % ('-' if v[1] < 0 else '', v[2], v[3] + 1)
     if v[0] == 'inf':
         return '+inf' if v[1] > 0 else '-inf'
+    if v[0] == 'x':
+        return repr(v[1])
+    if v[0] == 'b':
+        return str(v[1])
     return {'z': '0', 'nan': 'NaN', 'top': 'undecided'}[v[0]]
 
 
